@@ -10,6 +10,7 @@ import (
 	. "verifharness/kobj"
 	"verifharness/sched"
 
+	"sync"
 	"sync/atomic"
 
 	"github.com/boz/kcache"
@@ -450,6 +451,10 @@ func runC12(c *Ctx) {
 			// callers inside Cache().List() / Get() while the shutdown happens:
 			// each call returns (content or ErrNotRunning), none stays blocked
 			var readersLeft atomic.Int32
+			var raceMu sync.Mutex
+			var raced []<-chan struct{}
+			var keepSubs []kcache.Subscription
+			var keepClones []kcache.Controller
 			for rdr := 0; rdr < 4; rdr++ {
 				readersLeft.Add(1)
 				go func(rdr int) {
@@ -480,13 +485,29 @@ func runC12(c *Ctx) {
 							if err != nil {
 								return
 							}
-							sub.Close()
+							// the newest ones are left open: an object obtained while the
+							// tree shuts down must itself end up shut down
+							raceMu.Lock()
+							raced = append(raced, sub.Done())
+							if len(keepSubs) >= 2 {
+								keepSubs[0].Close()
+								keepSubs = keepSubs[1:]
+							}
+							keepSubs = append(keepSubs, sub)
+							raceMu.Unlock()
 						case 1:
 							cl2, err := ct.c.Clone()
 							if err != nil {
 								return
 							}
-							cl2.Close()
+							raceMu.Lock()
+							raced = append(raced, cl2.Done())
+							if len(keepClones) >= 2 {
+								keepClones[0].Close()
+								keepClones = keepClones[1:]
+							}
+							keepClones = append(keepClones, cl2)
+							raceMu.Unlock()
 						default:
 							m, err := kcache.NewMonitor(ct.c, kcache.BuildHandler().Create())
 							if err != nil {
@@ -544,6 +565,17 @@ func runC12(c *Ctx) {
 				// every caller's pause between two calls (<= 5ms) is over
 				time.Sleep(12 * time.Millisecond)
 				sched.Settle()
+				raceMu.Lock()
+				open := 0
+				for _, d := range raced {
+					if !isClosed(d) {
+						open++
+					}
+				}
+				raceMu.Unlock()
+				if open > 0 {
+					problems = append(problems, fmt.Sprintf("%d subscriptions / clones obtained from Subscribe() / Clone() while the tree was shutting down are not shut down themselves (%s, closed %v after start)", open, mode, at))
+				}
 				if n := readersLeft.Load(); n > 0 {
 					stuck = sched.LibraryStacks()
 					problems = append(problems, fmt.Sprintf("%d callers of Cache().List()/Get()/Subscribe()/Clone()/NewMonitor() are still blocked after Done() closed (%s, closed %v after start)", n, mode, at))
@@ -575,5 +607,5 @@ func runC12(c *Ctx) {
 		c.Case(enc.L(enc.I(13), enc.I(0)))
 	}
 	reentrantCloses(c, "C12")
-	c.Rep.Rule = "trees as in C11 on a real controller in virtual time under perturbation; shutdown triggers {Close, 3 concurrent Close, context cancel, list error} fired at every step index of a running workload (shutdown-point enumeration), plus Close swept over time while a list is slow, the watch connect hangs until cancelled or always fails, and after the server dropped the watch stream (after the reconnect, and inside the retry delay), while a list outlasts the refresh period (tick pending), and Close / context cancel while the controller is applying a list (initial and relist; slow filter) (mid-relist / mid-reconnect). Oracles: Close() returns and Done() closes at once in virtual time (synctest's deadlock detection is the oracle for 'does not hang'); after the root is done the inventory of goroutines with library frames is back to its value before the scenario; every API call {Subscribe*, Clone*, Refilter, Cache().List/Get, Close} on every stopped node returns a result or ErrNotRunning instead of blocking. Plus a monitor closed from inside each of its own callbacks (re-entrant Close). In the Close sweep seven goroutines call Cache().List()/Get() and Subscribe()/Clone()/NewMonitor() in a loop across the shutdown: none stays blocked. Non-trivial = every scenario."
+	c.Rep.Rule = "trees as in C11 on a real controller in virtual time under perturbation; shutdown triggers {Close, 3 concurrent Close, context cancel, list error} fired at every step index of a running workload (shutdown-point enumeration), plus Close swept over time while a list is slow, the watch connect hangs until cancelled or always fails, and after the server dropped the watch stream (after the reconnect, and inside the retry delay), while a list outlasts the refresh period (tick pending), and Close / context cancel while the controller is applying a list (initial and relist; slow filter) (mid-relist / mid-reconnect). Oracles: Close() returns and Done() closes at once in virtual time (synctest's deadlock detection is the oracle for 'does not hang'); after the root is done the inventory of goroutines with library frames is back to its value before the scenario; every API call {Subscribe*, Clone*, Refilter, Cache().List/Get, Close} on every stopped node returns a result or ErrNotRunning instead of blocking. Plus a monitor closed from inside each of its own callbacks (re-entrant Close). In the Close sweep seven goroutines call Cache().List()/Get() and Subscribe()/Clone()/NewMonitor() in a loop across the shutdown: none stays blocked, and every subscription / clone they obtained ends up shut down. Non-trivial = every scenario."
 }
